@@ -97,6 +97,8 @@ KNOWN_SHA = {
     'SpellCheck::new': "67522e9c7380a972d4e6c50b176498de314316db4a1d4460f79cd608806bd077",
     'SpelledNumbers::lint': "c83ae903ef22dc394645720780327b165425a9315b00c69182a921477b09a2c5",
     'spelled_numbers::spell_out_number': "ef4852117c3a90dbac54fcbf839e7a0a2efeb58a5481424cd9485c1e9c9138cf",
+    'CurrencyPlacement::lint': "b649608a583080701b83a1f8124710c0b4c792c55e74f7d01ff1b0b177907142",
+    'currency_placement::generate_lint_for_tokens': "5c24c67923dc189b432019245bb5a2805e74a409fea95f5a7aa779df6e1e0d30",
 }
 
 SOURCES_SHA = [
@@ -120,6 +122,9 @@ SOURCES_SHA = [
     ("SpellCheck::lint", "harper-core/src/linting/spell_check.rs", "Linter for SpellCheck", "lint"),
     ("SpelledNumbers::lint", "harper-core/src/linting/spelled_numbers.rs", "impl Linter for SpelledNumbers", "lint"),
     ("spelled_numbers::spell_out_number", "harper-core/src/linting/spelled_numbers.rs", "impl Linter for SpelledNumbers", "spell_out_number"),
+    # phase 7 (Model/C01SpanOrder.v; the other five functions with a Span::new site are pinned above / in SOURCES)
+    ("CurrencyPlacement::lint", "harper-core/src/linting/currency_placement.rs", "impl Linter for CurrencyPlacement", "lint"),
+    ("currency_placement::generate_lint_for_tokens", "harper-core/src/linting/currency_placement.rs", "impl Linter for CurrencyPlacement", "generate_lint_for_tokens"),
 ]
 
 SOURCES = [
@@ -179,12 +184,19 @@ PROVED_EXACT = [
     ("SpelledNumbers", "spell_out_number(hundred/100).unwrap()", "C01_spell_sites_total"),
     ("SpelledNumbers", "spell_out_number(parent).unwrap()", "C01_spell_sites_total"),
     ("SpelledNumbers", "spell_out_number(child).unwrap()", "C01_spell_sites_total"),
+    # phase 7: Span::new(a.span.start, b.span.end) over two tokens of one list, a before b (Model/C01SpanOrder.v)
+    ("AdjectiveOfA", "Span::new(adjective.span.start,a_or_an.span.end)", "C01_span_new_sites_total"),
+    ("CurrencyPlacement", "Span::new(a.span.start,b.span.end)", "C01_span_new_sites_total"),
+    ("InflectedVerbAfterTo", "Span::new(prep.span.start,word.span.end)", "C01_span_new_sites_total"),
+    ("RepeatedWords", "Span::new(tok_a.span.start,tok_b.span.end)", "C01_span_new_sites_total"),
 ]
 # the same expression several times in one rule: (rule, expression, how often, theorem)
 PROVED_MULTI = [
     ("InflectedVerbAfterTo", "&chars[..chars.len()-2]", 2, "C01_get_token_sites_total"),
     ("InflectedVerbAfterTo", "&chars[..chars.len()-1]", 2, "C01_get_token_sites_total"),
     ("CommaFixes", "toks.1.unwrap()", 4, "C01_get_token_sites_total"),
+    ("CommaFixes", "Span::new(toks.1.unwrap().span.start,toks.2.span.end)", 3, "C01_span_new_sites_total"),
+    ("MergeWords", "Span::new(a.span.start,b.span.end)", 2, "C01_span_new_sites_total"),
 ]
 
 
